@@ -5,17 +5,18 @@
 use super::util::*;
 use crate::codec::{self, Env, Subject, Visitor};
 use crate::gen;
-use crate::refimpl::{self, Scheme, RC, SCHEMES};
+use crate::refimpl::{self, Scheme, RC, RG, RS, SCHEMES};
 use crate::suite::*;
 use crate::{for_both, hx, Ctx, Tier};
 use blsful::inner_types::Field;
+use blsful::vsss_rs::Share;
 use blsful::*;
 use rand_chacha::ChaCha20Rng;
 use rand_core::RngCore;
 use serde_json::{json, Value};
 use std::time::{SystemTime, UNIX_EPOCH};
 
-pub const RULE: &str = "fuzz-shaped, deterministic from the seed, executed in the checked (overflow + debug assertions) AND the plain release build: (1) decoders of all 26 byte-convertible types x {bytes, serde_bare, serde_json} on: every truncation length, every single-bit flip (exhaustive for encodings <= 200 bytes, sampled above), +1/+32/+4096 extensions, empty input, all-0x00 / all-0xFF, hostile outer LEB128 length prefixes (2^7-1, 2^14, 2^32, 2^64-1, 19-byte maximal varint), and for JSON: non-hex characters, odd length, too short / too long hex, non-ASCII, escapes, wrong JSON type, missing / extra fields at every leaf; (2) the zero test: EXHAUSTIVE over the 256 byte values in first / middle / last position plus 1000 multi-byte patterns whose OR is 0x80, through every scalar byte importer; (3) every value any decoder returned is fed to every consuming method of its type (verify against honest and foreign keys, decrypt, from_shares, as_raw_value, Display, Debug, re-encode), capped per (type,codec) - plus ciphertexts whose INNER length prefix (under the keystream) is hostile; (4) every slice-taking API with lengths 0,1,2 and 255,256,257,300,1000 (an honest share set repeated) and the full 255-share set and SecretKeyEnum::from_*_bytes on short inputs; timestamp x timeout grid over {0,1,now+-1,now+-10^6,2^32,2^63,u64::MAX}. Distinct by (suite,type,codec,input bytes); a case is non-trivial when the input reached a decoder or consumer of the library (all do); counted separately: decoder-accepted inputs and consumer executions.";
+pub const RULE: &str = "fuzz-shaped, deterministic from the seed, executed in the checked (overflow + debug assertions) AND the plain release build: (1) decoders of all 26 byte-convertible types x {bytes, serde_bare, serde_json} on: every truncation length, every single-bit flip (exhaustive for encodings <= 200 bytes, sampled above), +1/+32/+4096 extensions, empty input, all-0x00 / all-0xFF, hostile outer LEB128 length prefixes (2^7-1, 2^14, 2^32, 2^64-1, 19-byte maximal varint), and for JSON: non-hex characters, odd length, too short / too long hex, non-ASCII, escapes, wrong JSON type, missing / extra fields at every leaf; (2) the zero test: EXHAUSTIVE over the 256 byte values in first / middle / last position plus 1000 multi-byte patterns whose OR is 0x80, through every scalar byte importer; (3) every value any decoder returned is fed to every consuming method of its type (verify against honest and foreign keys, decrypt, from_shares, as_raw_value, Display, Debug, re-encode), capped per (type,codec) - plus ciphertexts whose INNER length prefix (under the keystream) is hostile; (4) every slice-taking API with lengths 0,1,2 and 255,256,257,300,1000 (an honest share set repeated) and the full 255-share set and SecretKeyEnum::from_*_bytes on short inputs; timestamp x timeout grid over {0,1,now+-1,now+-10^6,2^32,2^63,u64::MAX}. Distinct by (suite,type,codec,input bytes); a case is non-trivial when the input reached a decoder or consumer of the library (all do); counted separately: decoder-accepted inputs and consumer executions. Cancellation catalogue: well-formed inputs crafted so that a value the consumer derives from them is the identity / zero - proof of knowledge with U = -(H(msg)*y) (3 schemes x challenges {hash,1,r-1} x 2 responses, also through the byte decoder), ElGamal ciphertexts encrypting zero (direct, through shares, Enc(m)+Enc(-m)), ElGamal proofs whose recomputed commitments r1 / r1 and r2 are the identity, share sets (1,P),(2,2P) of every share type and secret-key shares (1,s),(2,2s), accumulations of x and -x.";
 
 pub fn run(ctx: &mut Ctx) {
     ctx.panic_sig_by_location = true;
@@ -358,6 +359,138 @@ fn run_suite<C: Suite>(ctx: &mut Ctx) {
     if ctx.mine(base + 503) {
         inner_frames::<C>(ctx, &env, base + 503);
     }
+    ctx.require(&format!("{n}/cancellations"));
+    if ctx.mine(base + 504) {
+        cancellations::<C>(ctx, &env, base + 504);
+    }
+}
+
+/// Algebraically crafted inputs: well-formed values chosen so that a value the consumer DERIVES
+/// from them (a blinded commitment, a decrypted point, an interpolated point or scalar, a proof
+/// commitment) is the identity / zero. Every one decodes and passes the explicit identity / zero
+/// checks on the inputs themselves; the consumer must still return normally.
+fn cancellations<C: Suite>(ctx: &mut Ctx, env: &Env<C>, g: u64) {
+    let n = C::NAME;
+    let cell = format!("{n}/cancellations");
+    let mut rng = ctx.rng(g);
+    let k = rs_from_sc::<C>(&env.sk.0);
+    let two = RS::ONE + RS::ONE;
+    // 1. proof of knowledge with U = -(H(msg) * y): the blinded commitment U + H(msg)*y is O
+    for s in SCHEMES {
+        let dst = <C::R as RC>::dst(s);
+        for (yn, y) in [("hash", rs_from_sc::<C>(&env.y.0)), ("1", RS::ONE), ("r-1", -RS::ONE)] {
+            let a = RSig::<C>::hash(&env.msg, dst);
+            let u = a.mul(&y).neg();
+            for (vn, v) in [("random", RSig::<C>::gen().mul(&gen::random_scalar(&mut rng))), ("sig*y", rsig_of::<C>(&env.sig(s)).mul(&y))] {
+                let (lu, lv) = (ls::<C>(u), ls::<C>(v));
+                let pok = match s {
+                    Scheme::Basic => ProofOfKnowledge::<C>::Basic { u: lu, v: lv },
+                    Scheme::Aug => ProofOfKnowledge::<C>::MessageAugmentation { u: lu, v: lv },
+                    Scheme::Pop => ProofOfKnowledge::<C>::ProofOfPossession { u: lu, v: lv },
+                };
+                let ly = ProofCommitmentChallenge::<C>(sc_from_rs::<C>(&y));
+                let d = || json!({"what":"proof of knowledge whose commitment cancels the challenge term: U = -(H(msg)*y)","scheme":s.name(),"y":yn,"v":vn,"proof":hx(&Vec::from(&pok))});
+                ctx.guard("ProofOfKnowledge::verify", d, || std::hint::black_box(pok.verify(env.pk, &env.msg, ly).is_ok()));
+                // the same proof through its byte decoder (it is well-formed)
+                if let Ok(p2) = ProofOfKnowledge::<C>::try_from(Vec::from(&pok).as_slice()) {
+                    ctx.guard("ProofOfKnowledge::verify", d, || std::hint::black_box(p2.verify(env.pk, &env.msg, ly).is_ok()));
+                }
+                ctx.hit(&cell, &[b"pok", &[s.wire()], yn.as_bytes(), vn.as_bytes()]);
+            }
+        }
+    }
+    // 2. ElGamal ciphertexts that encrypt zero (c2 = sk*c1): the decrypted point is O
+    {
+        let r = gen::random_scalar(&mut rng);
+        let c1 = RPk::<C>::gen().mul(&r);
+        let c2 = c1.mul(&k);
+        let ct = ElGamalCiphertext::<C> { c1: lp::<C>(c1), c2: lp::<C>(c2) };
+        let d = || json!({"what":"ElGamal ciphertext with c2 = sk*c1 (encrypts zero)","ct":hx(&Vec::from(&ct))});
+        ctx.guard("ElGamalCiphertext::decrypt", d, || std::hint::black_box(enc_pt(&ct.decrypt(&env.sk))));
+        let es: Vec<ElGamalDecryptionShare<C>> = env.shares.iter().filter_map(|s| <C as BlsSignatureCore>::public_key_share_with_generator(&s.0, ct.c1).ok().map(ElGamalDecryptionShare)).collect();
+        ctx.guard("ElGamalDecryptionKey::from_shares+decrypt", d, || std::hint::black_box(ElGamalDecryptionKey::<C>::from_shares(&es).map(|dk| enc_pt(&dk.decrypt(&ct))).ok()));
+        // the sum of an honest ciphertext and the ciphertext of the negated plaintext
+        let m = gen::random_scalar(&mut rng);
+        if let (Ok(a), Ok(b)) = (env.pk.encrypt_key_el_gamal(&sk_from_rs::<C>(&m)), env.pk.encrypt_key_el_gamal(&sk_from_rs::<C>(&-m))) {
+            let sum = a + b;
+            ctx.guard("ElGamalCiphertext::decrypt", || json!({"what":"Enc(m)+Enc(-m)"}), || std::hint::black_box(enc_pt(&sum.decrypt(&env.sk))));
+        }
+        ctx.hit(&cell, &[b"elgamal-zero"]);
+        // 3. ElGamal proofs whose recomputed commitments r1 / r2 are O
+        let ch = gen::random_scalar(&mut rng);
+        let chi: RS = Option::<RS>::from(ch.invert()).unwrap();
+        let bp = r * ch; // G*bp - c1*ch = O
+        let mp = gen::random_scalar(&mut rng);
+        let h = RPk::<C>::dec(&enc_pt(&<C as BlsElGamal>::message_generator()));
+        if let Some(h) = h {
+            let pkr = rpk_of::<C>(&env.pk);
+            // r2 = -c2*ch + H*mp + pk*bp = O  <=>  c2 = (H*mp + pk*bp)/ch
+            let c2b = h.mul(&mp).add(pkr.mul(&bp)).mul(&chi);
+            for (vn, cc2) in [("r1=O", c2), ("r1=O,r2=O", c2b)] {
+                let proof = ElGamalProof::<C> {
+                    ciphertext: ElGamalCiphertext { c1: lp::<C>(c1), c2: lp::<C>(cc2) },
+                    message_proof: sc_from_rs::<C>(&mp),
+                    blinder_proof: sc_from_rs::<C>(&bp),
+                    challenge: sc_from_rs::<C>(&ch),
+                };
+                let d = || json!({"what":"ElGamal proof whose recomputed commitment(s) are the identity","variant":vn,"proof":hx(&Vec::from(&proof))});
+                ctx.guard("ElGamalProof::verify", d, || std::hint::black_box(proof.verify(env.pk).is_ok()));
+                ctx.guard("ElGamalProof::verify_and_decrypt", d, || std::hint::black_box(proof.verify_and_decrypt(&env.sk).is_ok()));
+                ctx.hit(&cell, &[b"elgamal-proof", vn.as_bytes()]);
+            }
+        }
+    }
+    // 4. share sets that interpolate to the identity / zero: (1, P), (2, 2P) gives 2P - 2P = O
+    {
+        let p = RPk::<C>::gen().mul(&gen::random_scalar(&mut rng));
+        let q = RSig::<C>::gen().mul(&gen::random_scalar(&mut rng));
+        let pk_shares = vec![PublicKeyShare::<C>(pk_share_raw::<C>(1, &p.enc())), PublicKeyShare::<C>(pk_share_raw::<C>(2, &p.mul(&two).enc()))];
+        ctx.guard("PublicKey::from_shares", || json!({"what":"public-key shares (1,P),(2,2P): interpolate to O"}), || std::hint::black_box(PublicKey::<C>::from_shares(&pk_shares).map(|x| pk_bytes(&x)).ok()));
+        let ds = vec![SignDecryptionShare::<C>(pk_share_raw::<C>(1, &p.enc())), SignDecryptionShare::<C>(pk_share_raw::<C>(2, &p.mul(&two).enc()))];
+        let ct = env.pk.sign_crypt(SignatureSchemes::ProofOfPossession, &env.msg);
+        ctx.guard("SignCryptDecryptionKey::from_shares", || json!({"what":"decryption shares (1,P),(2,2P)"}), || std::hint::black_box(SignCryptDecryptionKey::<C>::from_shares(&ds).ok().and_then(|dk| ct_some(dk.decrypt(&ct)))));
+        ctx.guard("SignCryptCiphertext::decrypt_with_shares", || json!({"what":"decryption shares (1,P),(2,2P)"}), || std::hint::black_box(ct_some(ct.decrypt_with_shares(&ds))));
+        let es = vec![ElGamalDecryptionShare::<C>(pk_share_raw::<C>(1, &p.enc())), ElGamalDecryptionShare::<C>(pk_share_raw::<C>(2, &p.mul(&two).enc()))];
+        if let Ok(eg) = env.pk.encrypt_key_el_gamal(&env.sk2) {
+            ctx.guard("ElGamalDecryptionKey::from_shares", || json!({"what":"ElGamal decryption shares (1,P),(2,2P)"}), || std::hint::black_box(ElGamalDecryptionKey::<C>::from_shares(&es).map(|dk| enc_pt(&dk.decrypt(&eg))).ok()));
+        }
+        for s in SCHEMES {
+            let ss = vec![wrap_sig_share::<C>(s, sig_share_raw::<C>(1, &q.enc())), wrap_sig_share::<C>(s, sig_share_raw::<C>(2, &q.mul(&two).enc()))];
+            ctx.guard("Signature::from_shares", || json!({"what":"signature shares (1,Q),(2,2Q): interpolate to O","scheme":s.name()}), || {
+                std::hint::black_box(Signature::<C>::from_shares(&ss).ok().map(|sg| sg.verify(&env.pk, &env.msg).is_ok()))
+            });
+        }
+        // secret-key shares (1, s), (2, 2s) interpolate to the zero key
+        if let Ok(mut sh) = env.sk.split(2, 3) {
+            let s1 = rs_from_sc::<C>(&sk_from_rs::<C>(&gen::random_scalar(&mut rng)).0);
+            let mut le1 = s1.to_be_bytes();
+            le1.reverse();
+            let mut le2 = (s1 * two).to_be_bytes();
+            le2.reverse();
+            let ok = sh[0].0.value_mut(&le1).is_ok() && sh[1].0.value_mut(&le2).is_ok();
+            if ok {
+                let pair = vec![sh[0].clone(), sh[1].clone()];
+                ctx.guard("SecretKey::combine", || json!({"what":"secret-key shares (1,s),(2,2s): interpolate to zero"}), || std::hint::black_box(SecretKey::<C>::combine(&pair).is_ok()));
+            }
+        }
+        ctx.hit(&cell, &[b"shares-to-identity"]);
+    }
+    // 5. accumulations that cancel: keys pk, -pk and signatures sig, -sig
+    {
+        let negpk = PublicKey::<C>(-env.pk.0);
+        let mpk = MultiPublicKey::<C>::from_public_keys([env.pk, negpk]);
+        for s in [Scheme::Basic, Scheme::Pop] {
+            let sig = env.sig(s);
+            let neg = wrap_sig::<C>(s, -*sig.as_raw_value());
+            let d = || json!({"what":"accumulation of x and -x","scheme":s.name()});
+            ctx.guard("MultiSignature::from_signatures+verify", d, || std::hint::black_box(MultiSignature::<C>::from_signatures([sig, neg]).ok().map(|m| m.verify(mpk, &env.msg).is_ok())));
+            ctx.guard("AggregateSignature::from_signatures+verify", d, || {
+                std::hint::black_box(AggregateSignature::<C>::from_signatures([sig, neg]).ok().map(|a| a.verify(&[(env.pk, env.msg.clone()), (negpk, env.msg.clone())]).is_ok()))
+            });
+        }
+        ctx.hit(&cell, &[b"accumulate-to-identity"]);
+    }
+    ctx.sample(&cell, || json!({"what":"crafted inputs whose derived values cancel: PoK U=-(H(m)y) x 3 schemes x 3 challenges x 2 responses; ElGamal zero plaintext (direct, from shares, Enc(m)+Enc(-m)); ElGamal proofs with r1=O and r1=r2=O; share sets (1,P),(2,2P) for every share type; x and -x accumulated"}));
 }
 
 /// every scalar byte importer
